@@ -16,6 +16,10 @@ def families(tier, seed):
             if feats.get("edges") and solver == "euler":
                 continue          # fixed-step delayed edges use the ring buffer (C09), not hist
             out.append(dict(tag=f"{tag}/field/{solver}", features=dict(feats, solver=solver), kind="dde_field", model=model, solver=solver, seed=seed))
+            if solver == "euler" and tag.split("-")[0] in ("H1", "H3", "H4"):
+                # a step size that needs more than six decimals: the generated hist(t*dt - d) must carry it exactly
+                out.append(dict(tag=f"{tag}/field-small-dt/{solver}", features=dict(feats, solver=solver, small_dt=True), kind="dde_field", model=model,
+                                solver=solver, seed=seed, dt=6.25e-5))
             if feats.get("edges"):
                 out.append(dict(tag=f"{tag}/field-vec/{solver}", features=dict(feats, solver=solver, vec=True), kind="dde_field", model=model,
                                 solver=solver, seed=seed, vec=True))
